@@ -15,7 +15,7 @@
 
 //! `trait MaxEncodedLen` bounds the maximum encoded length of items.
 
-use crate::{alloc::boxed::Box, Compact, Encode};
+use crate::{alloc::boxed::Box, Compact, CompactAs, Encode};
 use core::{
 	marker::PhantomData,
 	mem,
@@ -91,6 +91,18 @@ impl_compact!(
 	// github.com/paritytech/parity-scale-codec/blob/f0341dabb01aa9ff0548558abb6dcc5c31c669a1/src/compact.rs#L413
 	u128 => 17;
 );
+
+// A `CompactAs` type is encoded as the compact form of the type it converts to.
+impl<T> MaxEncodedLen for Compact<T>
+where
+	T: CompactAs,
+	Compact<T::As>: MaxEncodedLen,
+	Compact<T>: Encode,
+{
+	fn max_encoded_len() -> usize {
+		Compact::<T::As>::max_encoded_len()
+	}
+}
 
 // impl_for_tuples for values 19 and higher fails because that's where the WrapperTypeEncode impl
 // stops.
